@@ -17,16 +17,17 @@ def sh(cmd, cwd=None, timeout=1800, env=ENV):
 def main():
     prop, out = sys.argv[1], sys.argv[2]
     ks = sys.argv[3:] or ["1", "2", "3", "4"]
+    tag = os.environ.get("BENIGN_TAG", "r")
     head = sh("git -C /repo rev-parse --short HEAD")[1].strip()
     for k in ks:
         d = f"{out}/{k}"
         if not os.path.exists(d + "/patch.diff"):
-            print(f"{prop}-r{k}: no patch")
+            print(f"{prop}-{tag}{k}: no patch")
             continue
         wt = tempfile.mkdtemp(prefix="bn-")
         os.rmdir(wt)
         sh(f"git -C /repo worktree add -q --detach {wt} HEAD")
-        res = {"id": f"{prop}-r{k}", "anchored_property": prop, "kind": "behaviour-preserving refactoring",
+        res = {"id": f"{prop}-{tag}{k}", "anchored_property": prop, "kind": "behaviour-preserving refactoring",
                "origin": "independent sub-agent given only the property text and a scratch worktree",
                "repo_head_when_verified": head, "verified_by_me": []}
         try:
@@ -48,12 +49,12 @@ def main():
                 res["focused_before"] = rc == 0
             rc, o = sh(f"git apply {d}/patch.diff", cwd=wt)
             if rc != 0:
-                print(f"{prop}-r{k}: PATCH DOES NOT APPLY: {o[:300]}")
+                print(f"{prop}-{tag}{k}: PATCH DOES NOT APPLY: {o[:300]}")
                 continue
             rc, o = sh("go build ./...", cwd=wt)
             res["builds"] = rc == 0
             if rc != 0:
-                print(f"{prop}-r{k}: DOES NOT BUILD: {o[:400]}")
+                print(f"{prop}-{tag}{k}: DOES NOT BUILD: {o[:400]}")
                 continue
             if test_dst:
                 rc, o = sh(f"go test -vet=off -count=1 -run '{runre}' {pkg}", cwd=wt)
@@ -77,8 +78,8 @@ def main():
             res["check_outcome"] = "silent" if not alarms else "alarm"
             res["alarms_when_first_run"] = alarms
             ok = res.get("builds") and not real and res.get("focused_after", True)
-            dst = f"/verif/benign/{prop}-r{k}"
-            print(f"{prop}-r{k}: builds={res.get('builds')} focused={res.get('focused_before')}/{res.get('focused_after')} suite={'ok' if not real else real} checks={'silent' if not alarms else alarms}")
+            dst = f"/verif/benign/{prop}-{tag}{k}"
+            print(f"{prop}-{tag}{k}: builds={res.get('builds')} focused={res.get('focused_before')}/{res.get('focused_after')} suite={'ok' if not real else real} checks={'silent' if not alarms else alarms}")
             if ok:
                 os.makedirs(dst, exist_ok=True)
                 for fn in ("patch.diff", "notes.md", "check_test.go.txt", "check_path.txt"):
